@@ -3,20 +3,70 @@ import random, re
 from common import *
 
 ID = "C13"
-THEOREM_FILES = ["Summer.Props.C13", "Summer.Props.C13Source", "Summer.Props.C08Source"]
+THEOREM_FILES = ["Summer.Props.C13", "Summer.Props.C13Source", "Summer.Props.C08Source", "Summer.Props.C04Source"]
 TASK = "task"
 RULE = ("stratified models (1-3 stratifications, full and partial; flow names shared between entry, exit and transition flows in a third of the "
         "models); filtered raw flow outputs and compartment outputs of a solved model vs sums over brute-force selected flow-rate / state columns; "
         "12 queries per model with empty / partial / full / impossible filters over "
         "strata of any stratification: query_compartments (with and without a name; string, collection and predicate values), query_flows "
         "(name, source filter, destination filter, both), compared with the model's matchers and with a brute-force selection written "
-        "directly from the property sentence; non-trivial when the filter is non-empty")
+        "directly from the property sentence; plus scenario models in which same-named flows cross strata and a later stratification adjusts them under a source "
+        "filter, a destination filter or both (weights compared with the model); non-trivial when the filter is non-empty")
 TRUSTED = ["Spec.select in lean/Summer/Spec/Structure.lean is the reading of the property sentence"]
 ASSUMPTIONS = ["a collection of NAMES in query_compartments groups results by name order; the property speaks of 'a name', only single names are claimed"]
 
 def payloads(tier, seed):
     n = 50 if tier == "quick" else 1000
-    return [{"seed": seed, "index": i} for i in range(n)]
+    return [{"seed": seed, "index": i} for i in range(n)] + [{"seed": seed, "index": i, "mode": "adjfilter"} for i in range(16 if tier == "quick" else 300)]
+
+
+def adjfilter_task(W, payload):
+    """flow adjustments restricted by source and / or destination strata: same-named flows leave one stratum for DIFFERENT strata (and enter
+    one stratum from different strata); a later stratification adjusts that flow name under a source filter, a destination filter or both.
+    The filters must apply independently to the two ends.  Observable: every flow copy's weight (one_step), prescribed by C04.copy_weight."""
+    r = random.Random(f"C13adj:{payload['seed']}:{payload['index']}")
+    loc = ["x", "y", "z"]
+    ops = [{"op": "model", "t0": "0", "t1": "2", "dt": "1", "comps": ["A", "B"], "inf": ["B"]},
+           {"op": "init_pop", "dist": [["A", {"c": "60"}], ["B", {"c": "40"}]]},
+           {"op": "stratify", "kind": "plain", "name": "loc", "strata": loc, "comps": ["A", "B"]}]
+    # migration within A between locations (all ordered pairs, one name), an A->B transition per location, an import and a death flow of the same name
+    pairs = [(a, b) for a in loc for b in loc if a != b]
+    r.shuffle(pairs)
+    for a, b in pairs[: r.randint(3, 6)]:
+        ops.append({"op": "flow", "kind": "transition", "name": "mig", "param": {"c": r.choice(["1/8", "1/4", "1/2"])}, "src": "A", "dst": "A",
+                    "src_strata": [["loc", a]], "dst_strata": [["loc", b]]})
+    ops.append({"op": "flow", "kind": "transition", "name": "prog", "param": {"c": "1/4"}, "src": "A", "dst": "B"})
+    decls = []
+    for _ in range(r.randint(1, 3)):
+        which = r.choice(["src", "dst", "both", "both", "none"])
+        d = {"flow": r.choice(["mig", "mig", "prog"]), "adjs": [["u", r.choice([None, ["mul", {"c": "2"}], ["ovr", {"c": "5"}]])], ["v", ["mul", {"c": r.choice(["3", "1/2"])}]]]}
+        if which in ("src", "both"): d["src"] = [["loc", r.choice(loc)]]
+        if which in ("dst", "both"): d["dst"] = [["loc", r.choice(loc)]]
+        decls.append(d)
+    # an entry / exit flow of the same name (a source filter on a name that has a source-less flow is refused by the API, likewise for destinations)
+    if not any(d["flow"] == "mig" and d.get("src") for d in decls) and r.random() < 0.7:
+        ops.append({"op": "flow", "kind": "import", "name": "mig", "param": {"c": "3"}, "dst": "A", "split": False})
+    if not any(d["flow"] == "mig" and d.get("dst") for d in decls) and r.random() < 0.7:
+        ops.append({"op": "flow", "kind": "death", "name": "mig", "param": {"c": "1/16"}, "src": "A"})
+    ops.append({"op": "stratify", "kind": "plain", "name": "vac", "strata": ["u", "v"], "comps": r.choice([["A", "B"], ["A"]]), "flow_adj": decls})
+    out = {"evals": 0, "cases": [], "fails": [], "diffs": [], "feat": {"mode:adjustment_filters": 1}}
+    for d in decls:
+        k = "adjfilter:" + ("both" if d.get("src") and d.get("dst") else "src" if d.get("src") else "dst" if d.get("dst") else "none")
+        out["feat"][k] = out["feat"].get(k, 0) + 1
+    S = fresh_session(W)
+    if not S.build(ops):
+        out["feat"]["build_rejected"] = 1
+        return out
+    n = len(S.I.model.compartments)
+    x = [q(Fr(r.randint(1, 30))) for _ in range(n)]
+    before = len(S.log)
+    prog = {"build": ops, "params": {}}
+    py, ln = S.one_step({}, "1/2", x, stages=("S2", "S4"))
+    out["evals"] += 1
+    if py.get("ok"):
+        out["cases"].append(prog_hash(ops) + ":adjfilter")
+    tag_diffs(out, S, before, "c13", payload, prog, ("S2", "S4"))
+    return out
 
 def rand_filter(r, comps, kind):
     allkv = sorted(set((k, v) for _, s in comps for k, v in s))
@@ -34,6 +84,8 @@ def rand_filter(r, comps, kind):
     return [[k, v + "_nope"]] if r.random() < 0.5 else [["nokey", v]]
 
 def task(W, payload):
+    if payload.get("mode") == "adjfilter":
+        return adjfilter_task(W, payload)
     r = random.Random(f"C13:{payload['seed']}:{payload['index']}")
     prog = Gen(r, Opts(max_strats=3, force_strat=True, max_flows=6, allow_requests=False, allow_computed=False, shared_names_bias=0.35)).program()
     S = fresh_session(W)
